@@ -275,4 +275,13 @@ example : (arun (Client.init ⟨[false, false], [0, 0]⟩ 3) ⟨[false, false], 
     = ⟨[true, true], [0, 7]⟩ := by
   decide +kernel
 
+/-- non-vacuity of the zero-channel case: a device without channels is well formed … -/
+example : C07.WFDev ⟨[], []⟩ := by simp [C07.WFDev]
+
+/-- … and a merge with writes on it, at both granularities, ends in the empty state -/
+example : (C07.after ⟨[], []⟩ 3 [.enableAll, .write .ack .ack, .disableAll, .write .ack .ack]).2.1 = ⟨[], []⟩ ∧
+    (arun (Client.init ⟨[], []⟩ 3) ⟨[], []⟩ [.wDiv .ack, .query, .wEn .ack, .wDiv .ack, .wEn .ack]).2.1
+      = ⟨[], []⟩ := by
+  decide +kernel
+
 end Nxs.C12
